@@ -1,10 +1,164 @@
-(* C09. Statements only; proofs in AttSrv/AttSrvProofsC09.v. *)
-From BT Require Import Base.ListX AttDb.AttDbModel NQueue.NQueueModel AttSrv.AttSrvModel AttSrv.AttSrvNotifSpec
-  AttSrv.AttSrvProofsC09.
+(* C09  Client characteristic configuration is per connection and exact.
+   Statements only; proofs in AttSrv/AttSrvProofsC09.v, AttDb/AttDbNotifProofs.v, AttSrv/AttSrvFrame.v.
+
+   Model: AttSrvModel.v (cccd_get / cccd_set = client_characteristic_configuration::flags, cccd_write = the CCCD
+   attribute, conn.cccd = client_characteristic_configurations<>::configs_ of one connection), AttDbModel.v
+   (cccd_position, sorted_infos = characteristics_sorted_by_priority), AttSrvCbModel.v (callback count). *)
+From BT Require Import Base.ListX Base.Bits2 AttDb.AttDbModel AttDb.AttDbNotifProofs NQueue.NQueueModel AttSrv.AttSrvModel
+  AttSrv.AttSrvFrame AttSrv.AttSrvCbModel AttSrv.AttSrvNotifSpec AttSrv.AttSrvSpecC09 AttSrv.AttSrvProofsC09
+  AttSrv.AttSrvNotifExamples.
 Local Open Scope N_scope.
 
-Theorem C09_bad_confirmation_leaves_state :
-  forall c st cid pdu b n st' r,
-    handle_confirmation c st cid pdu b n = Some (st', r) -> len pdu <> 1 -> st' = st.
-Proof. exact confirmation_bad_length_unchanged. Qed.
-Print Assumptions C09_bad_confirmation_leaves_state.
+(* ---- lens laws of the packed store, for ANY number n of CCCDs (in particular across the 4-per-byte
+   boundary): a field reads back the two low bits written (other bits are dropped), no other field changes,
+   the array keeps its length and its bytes stay bytes. From the one-byte sweep Bits2.sweep. *)
+Theorem C09_store_lens :
+  forall n d i v, store_ok n d -> i < n ->
+    cccd_get (cccd_set d i v) i = N.land v 3
+    /\ (forall j, j < n -> j <> i -> cccd_get (cccd_set d i v) j = cccd_get d j)
+    /\ store_ok n (cccd_set d i v)
+    /\ cccd_get d i < 4.
+Proof. exact cccd_lens. Qed.
+Print Assumptions C09_store_lens.
+
+(* ---- after any history (requests, notifications, polls, confirmations, disconnects, ... of any length
+   on any connections) every connection's store is well formed for number_of_client_configs fields *)
+Theorem C09_store_well_formed_in_every_reachable_state :
+  forall c ops j k, get_conn (srv_after c (srv_init c) ops) j = Some k ->
+    store_ok (number_of_client_configs c) (cccd k).
+Proof. exact store_ok_reachable. Qed.
+Print Assumptions C09_store_well_formed_in_every_reachable_state.
+
+(* ---- the CCCD attribute, in every reachable state, for every configuration and priority declaration:
+   a write the attribute accepts has at most 2 bytes; the connection then reads exactly the notification /
+   indication bits of the first byte written (nothing changes for an empty write); no other CCCD of this
+   connection changes; no other connection changes; no characteristic value changes *)
+Theorem C09_cccd_write_is_exact_and_local :
+  forall c ops cid index s ch cci data st',
+    let st := srv_after c (srv_init c) ops in
+    attribute_at c index = Some (ACccd s ch cci) ->
+    Forall (fun b => b < 256) data ->
+    access_write c st cid (ACccd s ch cci) 0 data = Some (st', Success) ->
+    exists k k', get_conn st cid = Some k /\ get_conn st' cid = Some k'
+      /\ (length data <= 2)%nat
+      /\ cccd_get (cccd k') (cccd_position c cci)
+         = match data with [] => cccd_get (cccd k) (cccd_position c cci) | b :: _ => N.land b 3 end
+      /\ (forall j, j < number_of_client_configs c -> j <> cccd_position c cci -> cccd_get (cccd k') j = cccd_get (cccd k) j)
+      /\ (forall j, j <> cid -> get_conn st' j = get_conn st j)
+      /\ vals st' = vals st.
+Proof. exact cccd_access_write_exact. Qed.
+Print Assumptions C09_cccd_write_is_exact_and_local.
+
+(* reading the CCCD attribute returns <the two bits> 00 (from the requested offset) *)
+Theorem C09_cccd_read_is_exact :
+  forall c st cid k s ch cci off maxlen,
+    get_conn st cid = Some k ->
+    security_check (char_requires_encryption c s ch) (encrypted k) (pairing k) = Success ->
+    access_read c st cid (ACccd s ch cci) 0 off maxlen
+    = Some (let '(r, d) := mem_read [cccd_get (cccd k) (cccd_position c cci); 0] off maxlen in (st, r, d)).
+Proof. exact cccd_read_exact. Qed.
+Print Assumptions C09_cccd_read_is_exact.
+
+(* ---- per connection: whatever l2cap_input / l2cap_output does for one connection (any request, any
+   state), every other connection keeps all its data (MTU, CCCDs, security, queue) *)
+Theorem C09_other_connections_untouched :
+  forall c st o cid,
+    (match o with OpIn i _ _ | OpOut i _ => i = cid | _ => False end) ->
+    forall j, j <> cid -> get_conn (fst (srv_step c st o)) j = get_conn st j.
+Proof. exact other_connections_untouched. Qed.
+Print Assumptions C09_other_connections_untouched.
+
+(* ---- positions: for every configuration and every priority declaration, the position the CCCD attribute
+   number cci uses in the store is inside the store, and it is the index under which
+   find_notification_data_by_index (what l2cap_output and the queue use) returns the characteristic with
+   that CCCD number; different CCCDs use different positions (stable_sort is a permutation) *)
+Theorem C09_cccd_position_is_the_notification_index :
+  forall c index s ch cci,
+    attribute_at c index = Some (ACccd s ch cci) ->
+    cccd_position c cci < number_of_client_configs c
+    /\ exists x, nth_error (sorted_infos c) (N.to_nat (cccd_position c cci)) = Some x /\ ci_pos x = cci
+                 /\ find_notification_data_by_index c (cccd_position c cci) = (ci_first x + 1, cccd_position c cci).
+Proof. exact cccd_attribute_position. Qed.
+Print Assumptions C09_cccd_position_is_the_notification_index.
+
+Theorem C09_cccd_positions_distinct :
+  forall c a b, a < N.of_nat (n_cccd c) -> b < N.of_nat (n_cccd c) -> cccd_position c a = cccd_position c b -> a = b.
+Proof. exact cccd_position_inj. Qed.
+Print Assumptions C09_cccd_positions_distinct.
+
+Theorem C09_number_of_positions : forall c, N.of_nat (n_cccd c) = number_of_client_configs c.
+Proof. exact n_cccd_is_number_of_client_configs. Qed.
+Print Assumptions C09_number_of_positions.
+
+(* ---- the server wide subscription callback is invoked during a CCCD write exactly when the two stored
+   bits change (AttSrvCbModel.cccd_write_cb transcribes the test in characteristic.hpp; the count is tied
+   to the implementation by the `cbs` operation of the C09 harness) *)
+Theorem C09_callback_iff_stored_value_changes :
+  forall c st cid k cci off data st' r,
+    get_conn st cid = Some k ->
+    cccd_write c st cid k cci off data = (st', r) ->
+    forall k', get_conn st' cid = Some k' ->
+    cccd_write_cb c k cci off data
+    = (if cccd_get (cccd k') (cccd_position c cci) =? cccd_get (cccd k) (cccd_position c cci) then 0 else 1).
+Proof. exact callback_iff_changed. Qed.
+Print Assumptions C09_callback_iff_stored_value_changes.
+
+(* ---- the trace level statement: the monitor accepts every trace of the model. NOT PROVED (it needs a
+   simulation between the observer of AttSrvNotifSpec.v and srv_state through all 14 handlers); the theorems
+   above are its ingredients, the monitor itself is applied to the implementation's traces on every run. *)
+Definition C09_monitor_accepts_model_full : Prop :=
+  forall c ops, wf c -> monitor09 c (srv9_run c (srv9_init c) ops) = None.
+
+(* ---- non-vacuity *)
+Example C09_wf_nonvacuous : wf cfg_n1_mtu23 /\ wf cfg_n5_mtu65 /\ wf cfg_p9_mtu65 /\ wf cfg_p4_mtu100.
+Proof. repeat split; vm_compute; reflexivity. Qed.
+
+(* nine CCCDs, and the priority sort is not the identity *)
+Example C09_p9_positions :
+  number_of_client_configs cfg_p9_mtu65 = 9
+  /\ cccd_indices cfg_p9_mtu65 = [7; 6; 8; 3; 1; 0; 2; 4; 5]
+  /\ map (cccd_position cfg_p9_mtu65) [0; 1; 2; 3; 4; 5; 6; 7; 8] = [5; 4; 6; 3; 7; 8; 1; 0; 2].
+Proof. repeat split; vm_compute; reflexivity. Qed.
+
+(* a history on the five CCCD configuration (handles 4, 7, 10, 14, 19) that the model produces and the
+   monitor accepts: writes on two connections, read back, callbacks counted *)
+Example C09_monitor_accepts_model_history :
+  monitor09 cfg_n5_mtu65 (srv9_run cfg_n5_mtu65 (srv9_init cfg_n5_mtu65)
+    [Op9 (OpIn 0 [18; 4; 0; 1; 0] 23); Op9 (OpIn 1 [18; 19; 0; 3; 0] 23); Op9 (OpIn 0 [18; 19; 0; 255; 1] 23);
+     Cbs; Op9 (OpIn 0 [10; 19; 0] 23); Op9 (OpIn 1 [10; 19; 0] 23); Op9 (OpIn 2 [10; 19; 0] 23);
+     Op9 (OpIn 0 [18; 4; 0; 1] 23); Cbs; Op9 (OpIn 0 [82; 4; 0; 0; 0] 23); Cbs; Op9 (OpIn 0 [10; 4; 0] 23);
+     Op9 (OpIn 0 [12; 19; 0; 1; 0] 23); Op9 (OpDisc 0); Op9 (OpIn 0 [10; 19; 0] 23)]) = None.
+Proof. vm_compute. reflexivity. Qed.
+
+(* the monitor is not trivially accepting (CCCD of cfg_n1_mtu23: handle 6) *)
+Example C09_monitor_rejects_wrong_readback :
+  monitor09 cfg_n1_mtu23 [(Op9 (OpIn 0 [18; 6; 0; 1; 0] 23), Out9 (OBytes [19]));
+                          (Op9 (OpIn 0 [10; 6; 0] 23), Out9 (OBytes [11; 0; 0]))] = Some (1%nat, t09_readback)
+  /\ monitor09 cfg_n1_mtu23 [(Op9 (OpIn 0 [18; 6; 0; 7; 0] 23), Out9 (OBytes [19]));
+                             (Op9 (OpIn 0 [10; 6; 0] 23), Out9 (OBytes [11; 7; 0]))] = Some (1%nat, t09_readback).
+Proof. split; vm_compute; reflexivity. Qed.
+
+Example C09_monitor_rejects_other_connection :
+  monitor09 cfg_n1_mtu23 [(Op9 (OpIn 1 [18; 6; 0; 1; 0] 23), Out9 (OBytes [19]));
+                          (Op9 (OpIn 0 [10; 6; 0] 23), Out9 (OBytes [11; 1; 0]))] = Some (1%nat, t09_other_connection_changed).
+Proof. vm_compute. reflexivity. Qed.
+
+Example C09_monitor_rejects_other_cccd :
+  monitor09 cfg_n5_mtu65 [(Op9 (OpIn 0 [18; 4; 0; 1; 0] 23), Out9 (OBytes [19]));
+                          (Op9 (OpIn 0 [10; 19; 0] 23), Out9 (OBytes [11; 1; 0]))] = Some (1%nat, t09_other_cccd_changed).
+Proof. vm_compute. reflexivity. Qed.
+
+Example C09_monitor_checks_callback :
+  monitor09 cfg_n1_mtu23 [(Op9 (OpIn 0 [18; 6; 0; 1; 0] 23), Out9 (OBytes [19])); (Cbs, Count 0)] = Some (1%nat, t09_callback_iff_changed)
+  /\ monitor09 cfg_n1_mtu23 [(Op9 (OpIn 0 [18; 6; 0; 1; 0] 23), Out9 (OBytes [19])); (Cbs, Count 1);
+                             (Op9 (OpIn 0 [18; 6; 0; 1; 0] 23), Out9 (OBytes [19])); (Cbs, Count 1)] = Some (3%nat, t09_callback_iff_changed)
+  /\ monitor09 cfg_n1_mtu23 [(Op9 (OpIn 0 [18; 6; 0; 1; 0] 23), Out9 (OBytes [19])); (Cbs, Count 1);
+                             (Op9 (OpIn 0 [18; 6; 0; 1; 0] 23), Out9 (OBytes [19])); (Cbs, Count 0)] = None.
+Proof. repeat split; vm_compute; reflexivity. Qed.
+
+(* constants regenerated from the sources on every run *)
+From BT Require gen.GenAttSrv.
+Example C09_constants_are_the_codes :
+  GenAttSrv.opcode_write_request = 18 /\ GenAttSrv.opcode_write_command = 82 /\ GenAttSrv.opcode_read_request = 10
+  /\ GenAttSrv.opcode_read_blob_request = 12 /\ GenAttSrv.att_error_invalid_attribute_value_length = err_invalid_attribute_value_length.
+Proof. repeat split; reflexivity. Qed.
